@@ -5,6 +5,8 @@ import (
 	"errors"
 	"fmt"
 	"reflect"
+	"sync/atomic"
+	"time"
 
 	godi "github.com/junioryono/godi/v4"
 )
@@ -34,6 +36,63 @@ type errT2 struct{}
 type errT3 struct{}
 
 var thePtrErr = &ptrErr{"verif: scripted pointer-typed failure"}
+
+// disposable services that are VALUES (value receiver Close): one that is not comparable and one whose instances are
+// all equal.  Every constructed value is owned by the scope and closed exactly once.
+type valDispN struct{ payload []int }
+
+var valDispNCloses int64
+
+func (v valDispN) Close() error { atomic.AddInt64(&valDispNCloses, 1); return nil }
+
+type valDispE struct{ tag string }
+
+var valDispECloses int64
+
+func (v valDispE) Close() error { atomic.AddInt64(&valDispECloses, 1); return nil }
+
+func valueDisposableBattery() {
+	c := godi.NewCollection()
+	c.AddTransient(func() valDispN { return valDispN{payload: []int{1}} })
+	c.AddTransient(func() valDispE { return valDispE{tag: "lease"} })
+	p, err := c.Build()
+	if err != nil {
+		return
+	}
+	abuseCall("value_disposables_closed", func() error {
+		atomic.StoreInt64(&valDispNCloses, 0)
+		atomic.StoreInt64(&valDispECloses, 0)
+		s, err := p.CreateScope(nil)
+		if err != nil {
+			return err
+		}
+		for i := 0; i < 3; i++ { // consecutive instances of one type
+			if _, err := godi.Resolve[valDispE](s); err != nil {
+				return err
+			}
+		}
+		for i := 0; i < 3; i++ {
+			if _, err := godi.Resolve[valDispN](s); err != nil {
+				return err
+			}
+		}
+		done := make(chan error, 1)
+		go func() { done <- s.Close() }()
+		select {
+		case err := <-done:
+			if err != nil {
+				return err
+			}
+		case <-time.After(5 * time.Second):
+			return fmt.Errorf("Close did not return")
+		}
+		if n, e := atomic.LoadInt64(&valDispNCloses), atomic.LoadInt64(&valDispECloses); n != 3 || e != 3 {
+			return fmt.Errorf("3 + 3 value instances constructed, closed %d + %d", n, e)
+		}
+		return nil
+	})
+	p.Close()
+}
 
 // errorTypeBattery: constructors whose last result is a concrete type implementing error
 func errorTypeBattery() {
@@ -135,12 +194,14 @@ func abuseCall(name string, f func() error) {
 		ev["err"] = classify(f())
 	}()
 	emit(ev)
+	flushOut() // a later call may take the whole process down
 }
 
 func doAbuse() {
 	R.quiet = true
 	defer func() { R.quiet = false }()
 	errorTypeBattery()
+	valueDisposableBattery()
 	tS0, tS1, tS2 := reflect.TypeOf((*S0)(nil)), reflect.TypeOf((*S1)(nil)), reflect.TypeOf((*S2)(nil))
 	tU := reflect.TypeOf((*unregistered)(nil))
 	c := godi.NewCollection()
